@@ -193,7 +193,7 @@ pub fn c03(ctx: &Ctx) -> i32 {
     full.ops = (150, 300);
     full.w_reset = 3;
     full.p_large = 0.1;
-    full.w_reload = 0;
+    full.w_reload = 1;
     let spec = BookSpec {
         check: "c03",
         mons: M_LEDGER,
@@ -335,7 +335,7 @@ pub fn c13_book_spec(tier: Tier) -> BookSpec {
     let mut p = Profile::full();
     p.ops = (150, 300);
     p.w_toggle = 6;
-    p.w_reload = 0;
+    p.w_reload = 1;
     p.p_start_disabled = 0.3;
     p.p_market = 0.2;
     BookSpec {
